@@ -34,7 +34,7 @@ def main():
     if os.path.exists(meta_path):
         try:
             old = json.load(open(meta_path))
-            meta.update({k: v for k, v in old.items() if k in ("needs", "summary") or (k == "confirmed" and os.environ.get("SEED_SKIP_CONFIRM"))})
+            meta.update({k: v for k, v in old.items() if k in ("needs", "summary") or (k in ("confirmed", "checks_run") and os.environ.get("SEED_SKIP_CONFIRM"))})
         except Exception:
             pass
     notes = os.path.join(dst, "notes.md")
